@@ -192,6 +192,11 @@ def frag(kind):
         F["src/defaults.yml"] = f"# plain comment\n#! {T(2)}\nkey: value\n"
         F["src/limits.h"] = f"//! {T(3)}\n#define LIMIT 3\n"
         F["src/sub/defaults.yml"] = f"#! {T(4)}\nother: 1\n"
+    elif kind == "enum-dummyproc":
+        # items that live on another entity's page: enumerators, a dummy procedure declared by an interface block
+        F["src/x.f90"] = (f"module mx\n!! {T(1)}\nenum, bind(c)\n!! {T(2)}\nenumerator :: dup = 1\n!! {T(3)}\nenumerator :: dup_b\n!! {T(4)}\nend enum\ncontains\n"
+                          f"subroutine hostx(dupf, n)\n!! {T(5)}\ninterface\nfunction dupf(a)\n!! {T(6)}\ninteger :: a, dupf\nend function dupf\nend interface\ninteger :: n\n!! {T(7)}\n"
+                          f"n = dupf(n)\nend subroutine hostx\nend module mx\n")
     elif kind == "source-shown":
         # `source: true` (see OPTIONS): two procedures of one name in one file, each shown with its own source text
         F["src/w.f90"] = (f"module mw1\n!! {T(1)}\ncontains\nsubroutine dupsrc()\n!! {T(2)}\nprint *, 'CODEOFMW1'\nend subroutine dupsrc\nend module mw1\n"
@@ -228,7 +233,7 @@ OPTIONS = {"source-shown": dict(source=True), "saved-graphs": dict(graph=True, g
 
 KINDS = ["modproc-a", "modproc-b", "modproc-case", "external", "type-ctor", "type-case", "module-named-dup", "submodule-named-dup",
          "module-case", "program-named-dup", "unnamed-program", "unnamed-blockdata", "operators", "bound-operators", "namelists",
-         "same-basename", "same-basename-case", "variables", "tilde-name", "interface-proc", "generic-bodies", "extra-files", "inherited-generic", "saved-graphs", "source-shown"]
+         "same-basename", "same-basename-case", "variables", "tilde-name", "interface-proc", "generic-bodies", "extra-files", "inherited-generic", "saved-graphs", "source-shown", "enum-dummyproc"]
 EXCLUSIVE = [{"program-named-dup", "unnamed-program"}, {"module-named-dup", "module-case"}]
 
 
